@@ -18,6 +18,7 @@ PLAN = {
     "C05": {"level": "model_checking", "campaigns": [camp("c05", C.camp_c05)]},
     "C06": {"level": "model_checking", "campaigns": [camp("c06", C.camp_c06)]},
     "C07": {"level": "model_checking", "campaigns": [camp("c07", C.camp_c07)]},
+    "C08": {"level": "model_checking", "campaigns": [camp("c08", C.camp_c08)]},
 }
 
 _TV = "TLC trace validation of recorded executions of the real library against the Level-0 TLA+ clause tables (TraceLib.tla)"
